@@ -15,6 +15,8 @@ CONSTANTS MaxLen,     \* exact program length emitted
           ConstVals,  \* constant operand values
           ProbeSeq,   \* sequence of the values each input takes in the probe assignments
           OpSet,      \* operations explored
+          Derived,    \* TRUE: programs start with DerivedPrefix and the appended call takes its operands among the
+                      \*       derived values (operand kind "derived": -p0, 2*p1, s0+1), p0 and the constant 1
           Emit
 
 VARIABLES prog, nt, done, cur
@@ -23,10 +25,14 @@ vars == <<prog, nt, done, cur>>
 InputRefs == {[k |-> "p", i |-> 0], [k |-> "p", i |-> 1], [k |-> "s", i |-> 0]}
 ConstRefs == {[k |-> "c", i |-> v] : v \in ConstVals}
 TempRefs(n) == {[k |-> "t", i |-> j] : j \in 0..(n - 1)}
-Refs(n) == InputRefs \cup ConstRefs \cup TempRefs(n)
+DerivedPrefix == << [op |-> "Neg", a |-> <<[k |-> "p", i |-> 0]>>, n |-> 0],
+                   [op |-> "Mul", a |-> <<[k |-> "p", i |-> 1], [k |-> "c", i |-> 2]>>, n |-> 0],
+                   [op |-> "Add", a |-> <<[k |-> "s", i |-> 0], [k |-> "c", i |-> 1]>>, n |-> 0] >>
+Refs(n) == IF Derived THEN TempRefs(n) \cup {[k |-> "p", i |-> 0], [k |-> "c", i |-> 1]}
+           ELSE InputRefs \cup ConstRefs \cup TempRefs(n)
 
 NOut(op, n) == IF op = "ToBinary" THEN n
-               ELSE IF op \in {"AssertIsEqual", "AssertIsDifferent", "AssertIsBoolean", "AssertIsCrumb", "AssertIsLessOrEqual"} THEN 0
+               ELSE IF op \in {"AssertIsEqual", "AssertIsDifferent", "AssertIsBoolean", "AssertIsCrumb", "AssertIsLessOrEqual", "PlonkGate"} THEN 0
                ELSE 1
 
 L2Patterns == { <<[k |-> "p", i |-> 0], [k |-> "p", i |-> 1], [k |-> "s", i |-> 0], [k |-> "c", i |-> 2]>>,
@@ -37,12 +43,13 @@ L2Patterns == { <<[k |-> "p", i |-> 0], [k |-> "p", i |-> 1], [k |-> "s", i |-> 
 \* same as with one big step, but every state has few successors, which is what makes random simulation cheap.
 NoCur == [op |-> "", a |-> <<>>, n |-> 0]
 
-Init == prog = <<>> /\ nt = 0 /\ done = FALSE /\ cur = NoCur
+Init == /\ prog = (IF Derived THEN DerivedPrefix ELSE <<>>) /\ nt = (IF Derived THEN 3 ELSE 0)
+        /\ done = FALSE /\ cur = NoCur
 
 ChooseOp ==
   /\ Len(prog) < MaxLen /\ cur = NoCur
   /\ \E op \in OpSet :
-       \E w \in (IF op = "ToBinary" THEN {1, 3, FieldBits} ELSE {0}) :
+       \E w \in (IF op = "ToBinary" THEN {1, 3, FieldBits} ELSE IF op \in {"PlonkExpr", "PlonkGate"} THEN {1, 2, 3} ELSE {0}) :
          cur' = [op |-> op, a |-> <<>>, n |-> w]
   /\ UNCHANGED <<prog, nt, done>>
 
